@@ -210,9 +210,12 @@ def run_impl(c):
                                     verbose=False, **kw)
             out["derived"] = db.count_features_of_type() - len(lines)
             r = db.dialect
+            t = db.conn.execute("SELECT dialect FROM meta").fetchone()[0]
+            out["meta"] = ["ok", t] if isinstance(t, str) else ["err", "Other"]
             db.conn.close()
             return r
         out["db"] = attempt(mk)
+        out.setdefault("meta", ["err", "Other"])
         out.setdefault("derived", -1)
 
         def reopen():
@@ -228,8 +231,9 @@ def run_impl(c):
 
 def coq_case(c, o):
     rd = lambda r: L.res(r, G.coq_dialect)
-    obs = "(mkC09 %s %s %s %s %s %s %s)" % (L.lst([G.coq_dialect(x) for x in o["line_dialects"]], "dialect"), rd(o["iter"]),
-                                            rd(o["iter_feats"]), rd(o["db"]), rd(o["reopen"]), rd(o["first"]), L.z(o["derived"]))
+    obs = "(mkC09 %s %s %s %s %s %s %s %s)" % (L.lst([G.coq_dialect(x) for x in o["line_dialects"]], "dialect"), rd(o["iter"]),
+                                               rd(o["iter_feats"]), rd(o["db"]), rd(o["reopen"]), rd(o["first"]), L.z(o["derived"]),
+                                               L.res(o["meta"], L.s))
     return "CVote %s %d%%nat %s %s %s %s %s" % (
         L.ss([l["col"] for l in c["lines"]]), c["checklines"], L.opt(c["supplied"], G.coq_dialect, "dialect"),
         L.b(c["force_gff"]), L.opt(c["consistent"], G.coq_style, "style"), L.b(c["gtf_keys"]), obs)
